@@ -15,10 +15,12 @@
      source, destination, priority of the frames and the identity the source claimed — or raises what `spec_decode` says;
      the source map is unchanged; when the call returned (did not raise) the key's record is gone; no other key's record
      is touched.
+   E2E_fast_frames: the same for ANY frame list the C03 reassembler turns into the payload (E2EFast.reassembles) — the form
+     the encoder corollary (OblE2EfastEnc.v) uses.
    E2E_fast_packet: the instance for decode_tcp on ANY EByte rendering of each frame:
      t :: identifier (4 bytes, big endian) ++ frame ++ pad, (t & 15) = len(frame).
    E2E_fast_packet_ebyte: the instance for the encoder's own rendering (Wire.enc_ebyte1: type byte 0x80 | len, zero padding).
-   E2E_fast_undispatched: a PGN without dispatcher — the bound definition, every payload (no Match rule is consulted).
+   E2E_fast_undispatched / E2E_fast_frames_undispatched: a PGN without dispatcher — the bound definition, every payload (no Match rule is consulted).
    Generic part: coq/theories/E2EFast.v (ctl_run_sim: a run of `_decode` on one key IS CtlFastBridge.c_run, hence
    FastPacket.run; FastPacketProofs.inverse_run = C03 transfers). *)
 From NV Require Import Base Bits Defn PyNum Fields Dispatch DispatchProofs Template Spec SpecProofs
@@ -41,6 +43,35 @@ Proof. reflexivity. Qed.
 Lemma final_here_last ts_ok c st h : final_here ts_ok c st h = last (map fst (run_here ts_ok c st h)) st.
 Proof. apply e2e_final_last. Qed.
 
+(* the general form: ANY frame list `fs` that the C03 reassembler turns into `payload` from every record state fresh for
+   `seq` (E2EFast.reassembles; `segment seq payload` is one: C03 = E2EFast.segment_reassembles) *)
+Theorem E2E_fast_frames : forall g d, In g db_groups -> in_scope g = true -> In d (bound_defs g) -> simple_def d = true ->
+  forall ts_ok st ins pgn prio src dst seq fs payload,
+  Forall2 (parses_to ts_ok pgn prio src dst) ins fs -> reassembles seq fs payload ->
+  pgn = group_pgn g -> pgn <> 60928 ->
+  tbl_is_fast code_fast pgn = Ok (Some true) ->
+  (forall n, zlookup src (srcmap st) = Some n -> mfr_modelled n = true) ->
+  fresh_key seq (klookup (pgn, src, dst) (reasm st)) ->
+  spec_select g (le_int payload) = Some d ->
+  let res := e2e_expected SL SLB d (le_int payload) src dst prio (zlookup src (srcmap st)) in
+  let st' := final_here ts_ok cfg0 st ins in
+  map snd (run_here ts_ok cfg0 st ins) = repeat (Ok None) (length fs - 1) ++ [res] /\
+  srcmap st' = srcmap st /\
+  (is_ok res = true -> klookup (pgn, src, dst) (reasm st') = None) /\
+  (forall k', k' <> (pgn, src, dst) -> klookup k' (reasm st') = klookup k' (reasm st)).
+Proof.
+  intros g d Hg Sc Hd S ts_ok st ins pgn prio src dst seq fs payload P Re Ep Hp Hf Hi Fr Sel.
+  pose proof (G_ok g Hg) as G.
+  pose proof E2E_side as Sd. rewrite forallb_forall in Sd. specialize (Sd g Hg).
+  rewrite forallb_forall in Sd. specialize (Sd d (bound_defs_in g d Hd)).
+  apply andb_true_iff in Sd. destruct Sd as [Pg A]. apply Z.eqb_eq in Pg.
+  unfold run_here, final_here.
+  apply (e2e_fast_tables code_dec code_disp code_ids code_fast code_lookups code_bitlookups code_indirect
+           ts_ok SL SLB g d st ins pgn prio src dst seq fs payload); try assumption.
+  exact (C01_here g d Hg Hd S).
+Qed.
+Print Assumptions E2E_fast_frames.
+
 Theorem E2E_fast_any_entry : forall g d, In g db_groups -> in_scope g = true -> In d (bound_defs g) -> simple_def d = true ->
   forall ts_ok st ins pgn prio src dst seq payload,
   Forall2 (parses_to ts_ok pgn prio src dst) ins (FastPacket.segment seq payload) ->
@@ -58,14 +89,8 @@ Theorem E2E_fast_any_entry : forall g d, In g db_groups -> in_scope g = true -> 
   (forall k', k' <> (pgn, src, dst) -> klookup k' (reasm st') = klookup k' (reasm st)).
 Proof.
   intros g d Hg Sc Hd S ts_ok st ins pgn prio src dst seq payload P Ep Hp Hf Hi Hs Hl Fr Sel.
-  pose proof (G_ok g Hg) as G.
-  pose proof E2E_side as Sd. rewrite forallb_forall in Sd. specialize (Sd g Hg).
-  rewrite forallb_forall in Sd. specialize (Sd d (bound_defs_in g d Hd)).
-  apply andb_true_iff in Sd. destruct Sd as [Pg A]. apply Z.eqb_eq in Pg.
-  unfold run_here, final_here.
-  apply (e2e_fast_tables code_dec code_disp code_ids code_fast code_lookups code_bitlookups code_indirect
-           ts_ok SL SLB g d st ins pgn prio src dst seq payload); try assumption.
-  exact (C01_here g d Hg Hd S).
+  exact (E2E_fast_frames g d Hg Sc Hd S ts_ok st ins pgn prio src dst seq (FastPacket.segment seq payload) payload
+           P (segment_reassembles seq payload Hs Hl) Ep Hp Hf Hi Fr Sel).
 Qed.
 Print Assumptions E2E_fast_any_entry.
 
@@ -126,6 +151,32 @@ Qed.
 Print Assumptions E2E_fast_packet_ebyte.
 
 (* a PGN without dispatcher: the bound definition decodes EVERY reassembled payload *)
+Theorem E2E_fast_frames_undispatched : forall g d, In g db_groups -> is_dispatched g = false -> In d (bound_defs g) -> simple_def d = true ->
+  forall ts_ok st ins pgn prio src dst seq fs payload,
+  Forall2 (parses_to ts_ok pgn prio src dst) ins fs -> reassembles seq fs payload ->
+  pgn = group_pgn g -> pgn <> 60928 ->
+  tbl_is_fast code_fast pgn = Ok (Some true) ->
+  (forall n, zlookup src (srcmap st) = Some n -> mfr_modelled n = true) ->
+  fresh_key seq (klookup (pgn, src, dst) (reasm st)) ->
+  let res := e2e_expected SL SLB d (le_int payload) src dst prio (zlookup src (srcmap st)) in
+  let st' := final_here ts_ok cfg0 st ins in
+  map snd (run_here ts_ok cfg0 st ins) = repeat (Ok None) (length fs - 1) ++ [res] /\
+  srcmap st' = srcmap st /\
+  (is_ok res = true -> klookup (pgn, src, dst) (reasm st') = None) /\
+  (forall k', k' <> (pgn, src, dst) -> klookup k' (reasm st') = klookup k' (reasm st)).
+Proof.
+  intros g d Hg D Hd S ts_ok st ins pgn prio src dst seq fs payload P Re Ep Hp Hf Hi Fr.
+  pose proof (G_ok g Hg) as G.
+  pose proof E2E_side as Sd. rewrite forallb_forall in Sd. specialize (Sd g Hg).
+  rewrite forallb_forall in Sd. specialize (Sd d (bound_defs_in g d Hd)).
+  apply andb_true_iff in Sd. destruct Sd as [Pg A]. apply Z.eqb_eq in Pg.
+  unfold run_here, final_here.
+  apply (e2e_fast_tables_undispatched code_dec code_disp code_ids code_fast code_lookups code_bitlookups code_indirect
+           ts_ok SL SLB g d st ins pgn prio src dst seq fs payload); try assumption.
+  exact (C01_here g d Hg Hd S).
+Qed.
+Print Assumptions E2E_fast_frames_undispatched.
+
 Theorem E2E_fast_undispatched : forall g d, In g db_groups -> is_dispatched g = false -> In d (bound_defs g) -> simple_def d = true ->
   forall ts_ok st ins pgn prio src dst seq payload,
   Forall2 (parses_to ts_ok pgn prio src dst) ins (FastPacket.segment seq payload) ->
@@ -142,14 +193,8 @@ Theorem E2E_fast_undispatched : forall g d, In g db_groups -> is_dispatched g = 
   (forall k', k' <> (pgn, src, dst) -> klookup k' (reasm st') = klookup k' (reasm st)).
 Proof.
   intros g d Hg D Hd S ts_ok st ins pgn prio src dst seq payload P Ep Hp Hf Hi Hs Hl Fr.
-  pose proof (G_ok g Hg) as G.
-  pose proof E2E_side as Sd. rewrite forallb_forall in Sd. specialize (Sd g Hg).
-  rewrite forallb_forall in Sd. specialize (Sd d (bound_defs_in g d Hd)).
-  apply andb_true_iff in Sd. destruct Sd as [Pg A]. apply Z.eqb_eq in Pg.
-  unfold run_here, final_here.
-  apply (e2e_fast_tables_undispatched code_dec code_disp code_ids code_fast code_lookups code_bitlookups code_indirect
-           ts_ok SL SLB g d st ins pgn prio src dst seq payload); try assumption.
-  exact (C01_here g d Hg Hd S).
+  exact (E2E_fast_frames_undispatched g d Hg D Hd S ts_ok st ins pgn prio src dst seq (FastPacket.segment seq payload) payload
+           P (segment_reassembles seq payload Hs Hl) Ep Hp Hf Hi Fr).
 Qed.
 Print Assumptions E2E_fast_undispatched.
 
@@ -203,16 +248,21 @@ Proof.
                 ltac:(unfold ex_id; lia)) as T.
   assert (X : extract_header ex_id = (128275, 35, 255, 6)) by (vm_compute; reflexivity).
   rewrite X in T. cbv beta iota zeta in T. fold ex_ins in T.
-  destruct T as (T1 & T2 & T3 & _);
-    [vm_compute; reflexivity | discriminate | vm_compute; reflexivity | intros n Hn; discriminate | lia
-     | vm_compute; discriminate | left; reflexivity | exact S |].
+  assert (H1 : 128275 = group_pgn ex_g) by (vm_compute; reflexivity).
+  assert (H2 : 128275 <> 60928) by discriminate.
+  assert (H3 : tbl_is_fast code_fast 128275 = Ok (Some true)) by (vm_compute; reflexivity).
+  assert (H4 : forall n, zlookup 35 (srcmap init) = Some n -> mfr_modelled n = true) by (intros n Hn; discriminate).
+  assert (H5 : 0 <= 5 < 8) by lia.
+  assert (H6 : zlen ex_payload <= 223) by (vm_compute; discriminate).
+  assert (H7 : fresh_key 5 (klookup (128275, 35, 255) (reasm init))) by (left; reflexivity).
+  destruct (T H1 H2 H3 H4 H5 H6 H7 S) as (T1 & T2 & T3 & _). clear T.
   assert (Ln : length (FastPacket.segment 5 ex_payload) = 3%nat) by (vm_compute; reflexivity).
   rewrite Ln in T1. cbn [Nat.sub repeat app] in T1. rewrite T1.
   assert (A : forallb (fun d => match spec_decode SL SLB (le_int ex_payload) d with Ok _ => true | _ => false end) ex_g = true)
     by (vm_compute; reflexivity).
   rewrite forallb_forall in A. specialize (A d (spec_select_in _ _ _ S)).
   unfold e2e_expected in T3 |- *.
-  destruct (spec_decode SL SLB (le_int ex_payload) d) as [m| |] eqn:E; try discriminate.
+  destruct (spec_decode SL SLB (le_int ex_payload) d) as [m| |] eqn:E; [|exfalso; cbv beta iota in A; discriminate A ..].
   eexists. split; [reflexivity|]. cbn [DecoderCtl.m_pgn m_src m_dst].
   split; [|split; [reflexivity | split; [reflexivity | split; [exact (T3 eq_refl) | exact T2]]]].
   assert (Pg : forallb (fun d => Defn.d_pgn d =? 128275) ex_g = true) by (vm_compute; reflexivity).
